@@ -31,6 +31,23 @@ def _cval(t):
     return None
 
 
+_RO = {("core::result::Result", "Ok"): 0, ("core::result::Result", "Err"): 1,
+       ("core::option::Option", "None"): 0, ("core::option::Option", "Some"): 1}
+
+
+def _known_discr(pt):
+    """discriminant of a literally constructed Result / Option, or of `Try::branch` applied to one (`Err(e)?`):
+    ControlFlow::Continue = 0, ControlFlow::Break = 1"""
+    x = mir.strip_all(pt)
+    if isinstance(x, tuple) and x and x[0] == "agg" and (x[1], x[2]) in _RO:
+        return _RO[(x[1], x[2])]
+    if isinstance(x, tuple) and x and x[0] == "call" and x[1].endswith("as core::ops::try_trait::Try>::branch") and len(x[2]) == 1:
+        a = mir.strip_all(x[2][0])
+        if isinstance(a, tuple) and a and a[0] == "agg" and (a[1], a[2]) in _RO:
+            return 0 if a[2] in ("Ok", "Some") else 1
+    return None
+
+
 class Sym:
     """symbolic evaluation of operands/rvalues under an environment local -> term"""
 
@@ -116,6 +133,9 @@ class Sym:
             return ("un", rv["op"], a)
         if k == "discr":
             pt = self.place(rv["pl"], env)
+            known = _known_discr(pt)
+            if known is not None:
+                return ("c", "isize", known, None)
             return ("discr", pt, mir.adt_base(rv.get("of", "")))
         if k == "agg":
             ops = tuple(self.operand(o, env) for o in rv["ops"])
